@@ -20,8 +20,9 @@ SHAPES = list(gen.HEXAGONS)
 
 
 def make(task):
-    sd, shape, axis, dims, nsym = task
-    return gen.hex_deck(random.Random(sd), shape=shape, axis=axis, dims=dims, nsym=nsym)
+    sd, shape, axis, dims, nsym = task[:5]
+    cellform, second = (task[5], task[6]) if len(task) > 5 else ('planes', False)
+    return gen.hex_deck(random.Random(sd), shape=shape, axis=axis, dims=dims, nsym=nsym, cellform=cellform, second=second)
 
 
 def worker(task):
@@ -35,6 +36,13 @@ def tasks_for(tier):
     n_ = 16 if tier == 'quick' else 200
     for i in range(n_):
         out.append((base + i, SHAPES[i % len(SHAPES)], 'zxy'[(i // 4) % 3], 2 + (i % 3 == 2), 1 if tier == 'quick' else 2))
+    # unit cell = the macrobody RHP/HEX (15 entries); two hexagonal lattices with the same side directions
+    m_ = 8 if tier == 'quick' else 100
+    for i in range(m_):
+        if i % 2 == 0:
+            out.append((base + 500 + i, SHAPES[(i // 2) % len(SHAPES)], 'zxy'[(i // 2) % 3], 3, 1, 'rhp', False))
+        else:
+            out.append((base + 500 + i, SHAPES[(i // 2) % len(SHAPES)], 'zxy'[(i // 2) % 3], 2 + (i % 4 == 3), 1, 'planes', True))
     return out
 
 
@@ -48,7 +56,8 @@ def run(tier):
                        'equality of the written volumes with the union of the reference hexagonal elements, point symbolic.')
     rep.bounds = {'decks': len(tasks), 'hexagons': SHAPES, 'axes': 'x, y, z', 'elements_per_lattice': '<= 6',
                   'symbolic': 'at most 2 of: centre, scale, axial bounds, fill displacement; the point',
-                  'outside': ['exactly regular hexagons (irrational normals)', 'tilted prism axes', 'symbolic side directions']}
+                  'cell forms': 'six or eight planes; the macrobody RHP/HEX with 15 entries (concrete size, symbolic place); a second lattice with the same side directions',
+                  'outside': ['exactly regular hexagons (irrational normals)', 'RHP with 9 entries as a lattice cell (rotation by 60 degrees: irrational)', 'tilted prism axes', 'symbolic side directions']}
     rep.assumptions = ['MCNP hexagonal indexing: [1,0,0] across the first-listed plane, [0,1,0] across the third-listed, [0,0,1] across the seventh']
     rep.cov['rule'] = 'program = one generated deck; case = (deck, path, label); distinct = distinct (deck, path condition)'
     return rep.finish()
